@@ -41,7 +41,7 @@ M = [
  ("m05c-bf-ignored-for-zero-lock", ["C05"], ZA+"revlock.rs", [("                revocation_lock_blinding_factor.0,\n", "                revocation_lock_blinding_factor.0,\n"), ("        self.0\n            .verify_opening(", "        let _unused = 0;\n        self.0\n            .verify_opening(")], "no-op control (equivalent): must stay silent"),
  ("m06a-context-unhashed-establish", ["C06", "C12"], ZA+"proofs.rs", [("            .with_bytes(&context.as_bytes())\n", ""), ("            // Incorporate transcript context.\n            .with_bytes(context.as_bytes())\n", "            // Incorporate transcript context.\n")], "context dropped from both establish challenges"),
  ("m07b-verify-ignores-coordinates-beyond-5", ["C07"], ZC+"pointcheval_sanders.rs", [("                .zip(msg.iter())\n                .map(|(yi, mi)| yi * mi)", "                .zip(msg.iter())\n                .take(5)\n                .map(|(yi, mi)| yi * mi)")], "tests only use N=3"),
- ("m07c-well-formed-skipped-for-large-n", ["C07", "C11"], ZC+"pointcheval_sanders.rs", [("        if !self.is_well_formed() {\n            return false;\n        }", "        if !self.is_well_formed() && N <= 3 {\n            return false;\n        }")], "identity signature accepted for N>3"),
+ ("m07c-well-formed-skipped-for-large-n", ["C07", "C03"], ZC+"pointcheval_sanders.rs", [("        if !self.is_well_formed() {\n            return false;\n        }", "        if !self.is_well_formed() && N <= 3 {\n            return false;\n        }")], "identity signature accepted for N>3"),
  ("m08a-request-unverified-for-large-n", ["C08", "C11"], ZC+"proofs/signaturerequest.rs", [("            .verify_knowledge_of_opening(&params.to_pedersen_parameters(), challenge)\n            .then(", "            .verify_knowledge_of_opening(&params.to_pedersen_parameters(), challenge)\n            .max(N > 5)\n            .then(")], "blind-signable value without a valid proof for N>5"),
  ("m09a-inner-product-truncated", ["C09", "C07"], ZC+"lib.rs", [("        ts.iter().zip(us.iter()).map(|(&t, u)| t * u).sum::<X>()", "        ts.iter().zip(us.iter()).take(5).map(|(&t, u)| t * u).sum::<X>()")], "coordinates beyond 5 ignored"),
  ("m10b-caller-scalar-ignored-last-slot", ["C10"], ZC+"proofs/commitment.rs", [("                .iter()\n                .map(|&maybe_scalar| maybe_scalar.unwrap_or_else(|| Scalar::random(&mut *rng)))", "                .iter()\n                .enumerate()\n                .map(|(i, &maybe_scalar)| maybe_scalar.filter(|_| i < 5).unwrap_or_else(|| Scalar::random(&mut *rng)))")], "caller-chosen commitment scalar ignored beyond slot 5"),
@@ -49,7 +49,7 @@ M = [
  ("m12a-signature-sigma2-unhashed", ["C12"], ZC+"pointcheval_sanders.rs", [("        builder.consume(&self.sigma1);\n        builder.consume(&self.sigma2);", "        builder.consume(&self.sigma1);")], ""),
  ("m12b-range-parameters-hash-only-key", ["C12"], ZC+"proofs/range.rs", [("        for digit_signature in self.digit_signatures.iter() {\n            builder.consume(digit_signature);\n        }\n        builder.consume(&self.public_key);", "        builder.consume(&self.public_key);")], ""),
  ("m12c-public-key-x2-unhashed", ["C12"], ZC+"pointcheval_sanders.rs", [("        builder.consume_bytes(self.x2.to_bytes());\n\n        for y1", "\n        for y1")], ""),
- ("m12e-scalar-commitment-unhashed", ["C12", "C01", "C02", "C11"], ZC+"proofs/commitment.rs", [("        builder.consume(&self.commitment());\n        builder.consume(&self.scalar_commitment());\n    }\n}\n\n/// A partially-built", "        builder.consume(&self.commitment());\n    }\n}\n\n/// A partially-built"), ("        builder.consume(&self.commitment());\n        builder.consume(&self.scalar_commitment());\n    }\n}\n\n#[cfg(test)]", "        builder.consume(&self.commitment());\n    }\n}\n\n#[cfg(test)]")], "T removed from both ChallengeInput impls"),
+ ("m12e-scalar-commitment-unhashed", ["C12", "C01", "C02"], ZC+"proofs/commitment.rs", [("        builder.consume(&self.commitment());\n        builder.consume(&self.scalar_commitment());\n    }\n}\n\n/// A partially-built", "        builder.consume(&self.commitment());\n    }\n}\n\n/// A partially-built"), ("        builder.consume(&self.commitment());\n        builder.consume(&self.scalar_commitment());\n    }\n}\n\n#[cfg(test)]", "        builder.consume(&self.commitment());\n    }\n}\n\n#[cfg(test)]")], "T removed from both ChallengeInput impls"),
  ("m13b-range-digits-unchecked", ["C13", "C02"], ZC+"proofs/range.rs", [("        valid_digits && response_scalar == expected_response_scalar", "        let _ = valid_digits;\n        response_scalar == expected_response_scalar")], ""),
  ("m13c-ten-digits", ["C13"], ZC+"proofs/range.rs", [("const RP_PARAMETER_L: usize = 9;", "const RP_PARAMETER_L: usize = 10;")], "range becomes [0, 2^70)"),
  ("m13d-validate-skips-digit-0", ["C13"], ZC+"proofs/range.rs", [("        for (i, sig) in self.digit_signatures.iter().enumerate() {", "        for (i, sig) in self.digit_signatures.iter().enumerate().skip(1) {")], ""),
